@@ -7,6 +7,7 @@ loop, compared step by step with the extracted model; monitor: the property's tr
 import json
 
 import api_tie as T
+import access as X
 
 
 def run(chk):
@@ -80,7 +81,7 @@ def extra(chk, thorough):
                     e = ("ack", r.cur_seq())
                 real.append(e)
                 steps.append(r.step(e))
-            reconnected = r.api._uart is not None and r.real_reset.done()
+            reconnected = X.aget(r.api, "uart") is not None and r.real_reset.done()
             for e in [("issue", 2, later), ("ack", -1), ("ack", -1), ("tick", 1000), ("tick", 6000), ("ack", -1), ("ack", -1), ("tick", 6000)]:
                 if e == ("ack", -1):
                     e = ("ack", r.cur_seq())
